@@ -120,6 +120,9 @@ def defining_configuration(ctx):
 
 def run(ctx):
     rep = ctx.rep
+    rep.rule("C05.R12", "dependence monotonicity (K13) over every primal/derivative pair of K5: a stated derivative reads no datum its primal does not read", 15)
+    from .. import depmono as _dm
+    _dm.check_k5_pairs(ctx, "C05.R12", ['PositionOrientationBase', 'ProjectedPositionOrientationBase', 'FixedDistance'])
     rep.rule("C05.R1", "chain-rule coverage of constraint derivatives and time chain (K5)", 20)
     rep.rule("C05.R2", "g_dot_u = W_g.T by construction", 3)
     rep.rule("C05.R3", "mirror symmetry of subsystem-1 / subsystem-2 glue", 20)
